@@ -50,6 +50,24 @@ def run_spec(draw, kinds=("flat", "flat", "nested", "nested", "fi")):
     pr = draw(jumpy_prices(n, tickers))
     kind = draw(st.sampled_from(list(kinds)))
     spy = ["Probe", {"key": "c16spy", "run_always": True}]
+    if kind == "flat" and draw(st.integers(0, 9)) == 0:
+        # a book whose value lands on exactly zero and stays there (2x long with the price halving, 1x short with the price doubling;
+        # all amounts exact in binary floating point): zero is not below zero
+        lev, p0, p1 = draw(st.sampled_from([(2.0, 16.0, 8.0), (2.0, 100.0, 50.0), (4.0, 64.0, 48.0), (-1.0, 16.0, 32.0), (-1.0, 50.0, 100.0)]))
+        k = draw(st.integers(1, n - 1))
+        return {
+            "dates": ds,
+            "prices": {"a": [p0] * k + [p1] * (n - k)},
+            "rng_seed": 0,
+            "frames": {},
+            "additional": [],
+            "kind": "flat",
+            "exact_zero": True,
+            "tree": {"name": "root", "kind": "Strategy", "algos": [spy, ["RunOnce", {}], ["WeighSpecified", {"weights": {"a": lev}}], ["Rebalance", {}]]},
+            "integer_positions": draw(st.booleans()),
+            "initial_capital": 1e6,
+            "fee": {"kind": "none"},
+        }
     gate = draw(st.sampled_from([["RunDaily", {}], ["RunOnce", {}], ["RunWeekly", {}], ["RunMonthly", {}]]))
     spec = {"dates": ds, "prices": pr, "rng_seed": 0, "frames": {}, "additional": [], "kind": kind}
     if kind == "flat":
@@ -119,7 +137,7 @@ def case_run(ctx, spec):
 
     interp.Probe.registry["c16spy"] = cb
     try:
-        b = interp.mk_backtest(bt, {k: v for k, v in spec.items() if k not in ("kind", "carry", "two_step", "ruinous_fee", "hedge_secs")})
+        b = interp.mk_backtest(bt, {k: v for k, v in spec.items() if k not in ("kind", "carry", "two_step", "ruinous_fee", "hedge_secs", "exact_zero")})
         holder["root"] = b.strategy
         try:
             b.run()
@@ -168,9 +186,11 @@ def case_run(ctx, spec):
         if len(calls) != n - 1:
             raise Violation("fixed-income strategy stopped running: %d runs over %d dates (min value %r)" % (len(calls), n - 1, V.min()), signature="c16:fi-stopped")
         return {"nontrivial": bool(V.min() < 0), "labels": labs + (["crosses_zero"] if V.min() < 0 else [])}
-    lo = min(M.min(), V.min())
-    if abs(lo) < 1e-6 * cap or any(abs(x) < 1e-6 * cap for x in list(M) + list(V)):
+    # values within rounding distance of zero are borderline (discarded); a value of exactly 0.0 is not: it is not below zero
+    if any(0.0 < abs(x) < 1e-6 * cap for x in list(M) + list(V)):
         raise Discard("borderline zero")
+    if any(x == 0.0 for x in list(M[1:]) + list(V[1:])):
+        labs.append("value_exactly_zero")
     neg = [t for t in range(1, n) if M[t] < 0 or V[t] < 0]
     if not neg:
         if s.bankrupt:
